@@ -11,3 +11,5 @@ import WowVerif.Props.C06
 #print axioms Wv.Mut.session_reach
 #print axioms Wv.Mut.rename_steps
 #print axioms Wv.Mut.find_none_after_delete
+#print axioms Wv.Mut.compact_preserves_map
+#print axioms Wv.Mut.compact_refuses_unresolvable
